@@ -88,6 +88,8 @@ const GRAMMARS: &[(&str, bool, &str)] = &[
     ("X9warn", false, "%start S\n%token Z\n%%\nS: 'A' S | 'B' ;\nU: 'A' ;\n"),
     ("X10badhdr", false, "%grmtools{yacckind: [\n%start S\n%%\nS: 'A' ;\n"),
     ("X11unknownrule", false, "%start S\n%%\nS: 'A' T | 'B' ;\n"),
+    // 200 tokens: the builder's cache record (which lists every token) is several KiB long; text from `gtext`
+    ("G12big", true, ""),
 ];
 const LEXERS: &[(&str, bool, &str)] = &[
     ("missing", false, ""),
@@ -98,7 +100,31 @@ const LEXERS: &[(&str, bool, &str)] = &[
     ("Y5regex", false, "%%\na( \"A\"\nb \"B\"\n"),
     ("Y6syntax", false, "%%\na \"A\nb \"B\"\n"),
     ("Y7badhdr", false, "%grmtools{nest_limit: 99999999999999999999999}\n%%\na \"A\"\nb \"B\"\n"),
+    ("L8big", true, ""),
 ];
+
+const BIG: usize = 200;
+
+/// source text of grammar `g` (the table's, except for the generated big one)
+fn gtext(g: usize) -> String {
+    if GRAMMARS[g].0 == "G12big" {
+        let alts: Vec<String> = (0..BIG).map(|i| format!("'K{}'", i)).collect();
+        return format!("%start S\n%%\nS: S T | T ;\nT: {} ;\n", alts.join(" | "));
+    }
+    GRAMMARS[g].2.to_string()
+}
+
+fn ltext(l: usize) -> String {
+    if LEXERS[l].0 == "L8big" {
+        let mut s = String::from("%%\n");
+        for i in (0..BIG).rev() {
+            s.push_str(&format!("k{}; \"K{}\"\n", i, i));
+        }
+        s.push_str("[ \\t\\n]+ ;\n");
+        return s;
+    }
+    LEXERS[l].2.to_string()
+}
 const VALID_G: &[usize] = &[1, 2, 3, 4, 5];
 const INVALID_G: &[usize] = &[0, 6, 7, 8, 9, 10, 11];
 const VALID_L: &[usize] = &[1, 2, 3, 4];
@@ -324,6 +350,77 @@ pub fn child(src: &Path, outd: &Path, s: &[usize]) {
         ll = "L 0 - -".to_string();
     }
     println!("{}\n{}", pl, ll);
+}
+
+/// one parser build with 8-bit storage (`--child8 SRC OUT`): prints `ok`, `err …` or `panic …`. The
+/// documented panic "StorageT is not big enough" is a failing build like any other.
+pub fn child8(src: &Path, outd: &Path) {
+    let gp = src.join("g.y");
+    let pout = outd.join("g.y.rs");
+    let r = guarded(AssertUnwindSafe(|| {
+        CTParserBuilder::<DefaultLexerTypes<u8>>::new()
+            .yacckind(YaccKind::Original(YaccOriginalActionKind::NoAction))
+            .grammar_path(&gp)
+            .output_path(&pout)
+            .build()
+            .map(|_| ())
+            .map_err(|e| e.to_string())
+    }));
+    match r {
+        Ok(Ok(())) => println!("ok"),
+        Ok(Err(m)) => println!("err {}", one_line(&m)),
+        Err(m) => println!("panic {}", one_line(&m)),
+    }
+}
+
+/// history "small grammar built, grammar outgrows the storage type, built again (the builder panics),
+/// small grammar restored, built" with 8-bit storage: the panicking build must not leave the first
+/// build's output behind. `None` = as the property demands.
+fn narrow_storage_history(a: &Args) -> Option<String> {
+    let root = a.out.join("c18tmp").join("narrow");
+    let _ = std::fs::remove_dir_all(&root);
+    let (src, inc) = (root.join("src"), root.join("inc"));
+    std::fs::create_dir_all(&src).ok()?;
+    std::fs::create_dir_all(&inc).ok()?;
+    let gp = src.join("g.y");
+    let pout = inc.join("g.y.rs");
+    let run = || -> String {
+        let exe = std::env::current_exe().unwrap();
+        let o = Command::new(exe).arg("C18").arg("--child8").arg(&src).arg(&inc).env_remove("OUT_DIR").stdin(Stdio::null()).stderr(Stdio::null()).output();
+        o.ok().map(|o| String::from_utf8_lossy(&o.stdout).trim().to_string()).unwrap_or_default()
+    };
+    let small = gtext(1);
+    let alts: Vec<String> = (0..300).map(|i| format!("'K{}'", i)).collect();
+    let wide = format!("%start S\n%%\nS: {} ;\n", alts.join(" | "));
+    write_src(&gp, Some(&small[..]), 0);
+    let r1 = run();
+    let first = std::fs::read_to_string(&pout).ok();
+    let mut verdict = None;
+    if r1 != "ok" || first.is_none() {
+        verdict = Some(format!("narrow-storage first build of the small grammar did not succeed: {}", r1));
+    } else {
+        write_src(&gp, Some(&wide[..]), 5);
+        let r2 = run();
+        if r2 == "ok" {
+            verdict = Some("narrow-storage a 300-token grammar was built with 8-bit storage".to_string());
+        } else if pout.exists() {
+            let same = std::fs::read_to_string(&pout).ok().map(|t| strip_stamp(&t)) == first.as_ref().map(|t| strip_stamp(t));
+            verdict = Some(format!(
+                "stale-after-failed-build parser output exists after CTParserBuilder::build failed ({}) with 8-bit storage: history [build G1; grammar := 300 tokens; build]{}",
+                r2,
+                if same { " — it is the output of the earlier grammar" } else { "" }
+            ));
+        } else {
+            write_src(&gp, Some(&small[..]), 9);
+            let r3 = run();
+            let third = std::fs::read_to_string(&pout).ok();
+            if r3 != "ok" || third.as_ref().map(|t| strip_stamp(t)) != first.as_ref().map(|t| strip_stamp(t)) {
+                verdict = Some(format!("differs-from-clean-build parser: after a panicking build the restored grammar builds to something else ({})", r3));
+            }
+        }
+    }
+    let _ = std::fs::remove_dir_all(&root);
+    verdict
 }
 
 // ---------------------------------------------------------------------------------------------------
@@ -602,6 +699,12 @@ fn status_code(invoked: bool, st: &str) -> u64 {
 }
 
 #[allow(clippy::too_many_arguments)]
+/// is this the first built-in witness of the run (corpus files come first and vary)
+fn hid_is_first(hid: u64, a: &Args) -> bool {
+    a.shard == 0 && FIRST_BUILTIN.load(Ordering::SeqCst) == hid
+}
+static FIRST_BUILTIN: std::sync::atomic::AtomicU64 = std::sync::atomic::AtomicU64::new(u64::MAX);
+
 fn run_history(out: &mut Out, a: &Args, texts: &mut Interner, keys: &mut Interner, hid: u64, init: (usize, usize, Vec<usize>), ops: Vec<(Op, u64)>, origin: &str) {
     let id = out.id();
     let root = a.out.join("c18tmp").join(format!("h{}", hid));
@@ -617,8 +720,8 @@ fn run_history(out: &mut Out, a: &Args, texts: &mut Interner, keys: &mut Interne
     let lp = src.join("l.l");
     let pout = inc.join("g.y.rs");
     let lout = inc.join("l.l.rs");
-    write_src(&gp, if g == 0 { None } else { Some(GRAMMARS[g].2) }, t);
-    write_src(&lp, if l == 0 { None } else { Some(LEXERS[l].2) }, t);
+    { let tx = gtext(g); write_src(&gp, if g == 0 { None } else { Some(&tx[..]) }, t); }
+    { let tx = ltext(l); write_src(&lp, if l == 0 { None } else { Some(&tx[..]) }, t); }
     let mut h = Hist { root: root.clone(), texts, keys, nclean: 0 };
     let mut memo: HashMap<(usize, usize, Vec<usize>), Clean> = HashMap::new();
     // model times of the output files as set by the harness
@@ -643,12 +746,12 @@ fn run_history(out: &mut Out, a: &Args, texts: &mut Interner, keys: &mut Interne
                 g = *g2;
                 gver += 1;
                 gmt_model = t;
-                write_src(&gp, if g == 0 { None } else { Some(GRAMMARS[g].2) }, t);
+                { let tx = gtext(g); write_src(&gp, if g == 0 { None } else { Some(&tx[..]) }, t); }
                 out.count(if GRAMMARS[g].1 { "op_edit_grammar" } else { "op_make_grammar_invalid" });
             }
             Op::EditL(l2) => {
                 l = *l2;
-                write_src(&lp, if l == 0 { None } else { Some(LEXERS[l].2) }, t);
+                { let tx = ltext(l); write_src(&lp, if l == 0 { None } else { Some(&tx[..]) }, t); }
                 out.count(if LEXERS[l].1 { "op_edit_lexer" } else { "op_make_lexer_invalid" });
             }
             Op::Opt(i, v) => {
@@ -822,6 +925,13 @@ fn run_history(out: &mut Out, a: &Args, texts: &mut Interner, keys: &mut Interne
         req.push(' ');
         req.push_str(r);
     }
+    if origin == "corpus" && hid_is_first(hid, a) {
+        // the one history that needs a different storage type rides on the first built-in witness
+        out.count("narrow_storage_histories");
+        if let Some(f) = narrow_storage_history(a) {
+            hfails.push(f);
+        }
+    }
     out.case("C18", id, &req);
     let desc = format!("{} history: {}", origin, describe(&init, &ops));
     out.imp(id, "D", &desc);
@@ -936,6 +1046,9 @@ fn corpus() -> Vec<((usize, usize, Vec<usize>), Vec<(Op, u64)>)> {
         // option changes that make the build fail early (warnings_are_errors, yacckind) and back
         ((9, 1, { let mut x = d.clone(); x[3] = 0; x }), vec![b.clone(), (Op::Opt(3, 1), 1), b.clone(), (Op::Opt(3, 0), 1), b.clone()]),
         ((1, 1, d.clone()), vec![b.clone(), (Op::Opt(0, 3), 1), b.clone(), (Op::Opt(0, 0), 1), b.clone(), (Op::Opt(0, 2), 1), b.clone(), (Op::Opt(7, 3), 1), b.clone()]),
+        // unchanged rebuilds of a grammar whose cache record is long (200 tokens), then a real change
+        ((12, 8, d.clone()), vec![b.clone(), b.clone(), b.clone(), (Op::EditL(1), 1), b.clone(), (Op::EditL(8), 1), b.clone(), b.clone()]),
+        ((12, 8, nested.clone()), vec![b.clone(), b.clone(), b.clone()]),
         // unchanged rebuilds, equal timestamps
         ((2, 2, d.clone()), vec![b.clone(), b.clone(), (Op::EditG(2), 0), (Op::Build, 0), (Op::Build, 0), b.clone()]),
     ]
@@ -989,6 +1102,12 @@ pub fn run(a: &Args) {
         child(&src, &outd, &s);
         return;
     }
+    if let Some(i) = a.extra.iter().position(|x| x == "--child8") {
+        let src = PathBuf::from(a.extra.get(i + 1).cloned().unwrap_or_default());
+        let outd = PathBuf::from(a.extra.get(i + 2).cloned().unwrap_or_default());
+        child8(&src, &outd);
+        return;
+    }
     let mut out = Out::new(&a.out);
     let mut texts = Interner::default();
     let mut keys = Interner::default();
@@ -1000,7 +1119,12 @@ pub fn run(a: &Args) {
         for line in txt.lines() {
             if let Some((init, ops)) = parse_request(line) {
                 n += 1;
-                run_history(&mut out, a, &mut texts, &mut keys, n, init, ops, "replay");
+                // a replay of the case the narrow-storage history rode on runs that history again
+                let narrow = n == 1 && txt.contains("8-bit storage");
+                if narrow {
+                    FIRST_BUILTIN.store(1, Ordering::SeqCst);
+                }
+                run_history(&mut out, a, &mut texts, &mut keys, n, init, ops, if narrow { "corpus" } else { "replay" });
             }
         }
         let _ = std::fs::remove_dir_all(&tmp);
@@ -1026,6 +1150,9 @@ pub fn run(a: &Args) {
             continue;
         }
         hid += 1;
+        if k == 0 {
+            FIRST_BUILTIN.store(hid, Ordering::SeqCst);
+        }
         run_history(&mut out, a, &mut texts, &mut keys, hid, init, ops, "corpus");
     }
     let n = if a.thorough { 1500 } else { 120 };
